@@ -118,7 +118,7 @@ pub trait Prop: Sync {
     /// per-tier wall budget in seconds for the exploration (not counting build)
     fn budget_s(&self, tier: Tier) -> u64 {
         match tier {
-            Tier::Quick => 45,
+            Tier::Quick => 150,
             Tier::Thorough => 1500,
         }
     }
